@@ -153,15 +153,38 @@ def r_add_scan(model, rep, tier):
     bad = [ev for ev in cx.events if ev.kind in ("break", "return") and set(l[0] for l in ev.loops) & lids]
     rep.ob("R-ADD-SCAN", "Images.add:scan-not-cut-short", not bad, site=cx.site(f.node),
            msg="" if not bad else "%s inside the collision scan (line %s)" % (bad[0].kind, bad[0].lineno))
-    # insertion: one statement, after the scan, into the addressed cell
+    r_add_insertion(model, rep, after=rs[0].seq if rs else None)
+
+
+def r_add_insertion(model, rep, rule_id="R-ADD-SCAN", after=None):
+    """Images.add files exactly the image it was given, once, unconditionally, into the cell addressed by its (variant, arch)
+    arguments -- the cell reached from self.images by setdefault()/subscript steps keyed by those two parameters"""
+    f = model.own_method("images.Images", "add")
+    cx = facts.fctx(model, f)
+    S = P(cx.selfname)
+    img = P(cx.params[3])
+    im = ("attr", S, "images")
     ins = [ev for ev in cx.events if ev.kind == "call" and ev.value[1][0] == "attr" and ev.value[1][2] == "add" and T.root_of(ev.value[1][1]) == S
            and ev.value[1][1] != S]
-    want = ("call", ("attr", ("call", ("attr", ("call", ("attr", im, "setdefault"), (P(cx.params[1]), ("dict", ())), ()), "setdefault"),
-                              (P(cx.params[2]), ("call", ("global", "set"), (), ())), ()), "add"), (img,), ())
-    ok = len(ins) == 1 and ins[0].value == want and not [g for g in ins[0].guards if g[1]] and not ins[0].loops \
-        and (not rs or ins[0].seq > rs[0].seq)
-    rep.ob("R-ADD-SCAN", "Images.add:insertion", ok, site=cx.site(f.node),
-           msg="" if ok else "the image must be inserted exactly once, unconditionally, after the scan, into images[variant][arch]")
+
+    def cell_keys(t):
+        keys = []
+        t = T.unwrap(t)
+        while t != im:
+            if t[0] == "sub":
+                keys.append(t[2])
+                t = T.unwrap(t[1])
+            elif t[0] == "call" and t[1][0] == "attr" and t[1][2] == "setdefault" and len(t[2]) == 2:
+                keys.append(t[2][0])
+                t = T.unwrap(t[1][1])
+            else:
+                return None
+        return list(reversed(keys))
+    ok = len(ins) == 1 and ins[0].value[2] == (img,) and cell_keys(ins[0].value[1][1]) == [P(cx.params[1]), P(cx.params[2])] \
+        and not [g for g in facts.own_guards(cx, ins[0]) if facts.gate_term_value(g[0], (1, 1)) is None] and not ins[0].loops \
+        and (after is None or ins[0].seq > after)
+    rep.ob(rule_id, "Images.add:insertion", ok, site=cx.site(f.node),
+           msg="" if ok else "the image given must be inserted exactly once, unconditionally, after the scan, into images[variant][arch]")
 
 
 def r_single_writer(model, rep, owner, attr, allowed, rule_id="R-SINGLE-WRITER"):
